@@ -42,18 +42,23 @@ def _cond_modes(ctx):
 
 
 def _cond_attempt_modes(ctx):
+    from .paths import enumerate_paths, cmp_atom
+    from .norm import view
     f = ctx.func("_attempt_schemas")
-    handled = set()
-    for st in f.body:
-        if isinstance(st, ast.If) and always_exits(st.body):
-            t = st.test
-            if isinstance(t, ast.Compare) and len(t.ops) == 1 and isinstance(t.ops[0], ast.Eq) \
-                    and norm(t.left) == "mode" and isinstance(t.comparators[0], ast.Constant):
-                handled.add(t.comparators[0].value)
-    ok = handled >= {"anyOf", "oneOf", "allOf"}
-    last = f.body[-1]
-    ok = ok and isinstance(last, ast.Raise)
-    return ok, f"every mode in {sorted(handled)} exits before the final raise"
+    paths = [p for p in enumerate_paths(view(f, ctx.prog).body) if p.exit == "raise" and "ValueError" in norm(p.exit_node)]
+    if not paths:
+        return False, "the ValueError raise was not found"
+    for p in paths:
+        excluded = set()
+        for t, pol in p.conds:
+            if isinstance(t, str):
+                continue
+            c = cmp_atom(t, pol)
+            if c and c[0] == "mode" and c[1] == "!=" and c[2] in ("'anyOf'", "'oneOf'", "'allOf'"):
+                excluded.add(c[2].strip("'"))
+        if excluded != {"anyOf", "oneOf", "allOf"}:
+            return False, f"a path reaches the raise with only {sorted(excluded)} excluded"
+    return True, "every path to the raise has mode different from anyOf, oneOf and allOf"
 
 
 def _cond_no_properties_args(ctx):
@@ -89,6 +94,26 @@ def _cond_object_init_sets_all(ctx):
     return ("for prop in self.props.values()" in src), "placeholders are produced for every declared property"
 
 
+def _cond_multipleof_only(ctx, origin):
+    """The arithmetic is in MultipleOf._validate, or in a private helper that
+    is only ever called from methods of MultipleOf."""
+    f = origin.func
+    seen = set()
+    work = [f]
+    while work:
+        g = work.pop()
+        if g in seen:
+            continue
+        seen.add(g)
+        if g.cls is not None and g.cls.name == "MultipleOf":
+            continue
+        callers = [h for h in ctx.prog.all_funcs() for s_ in ctx.inf.sites(h)[0] if s_.callee is g]
+        if not callers:
+            return False, f"{g.short} is not (only) reached from MultipleOf"
+        work.extend(callers)
+    return True, f"{f.short} runs only under MultipleOf._validate"
+
+
 JUSTIFIED_X1 = [
     # (function short, construct predicate, exception, reason, side condition)
     ("CompositionElement.construct", lambda t: t.startswith("raise NotImplementedError"), "NotImplementedError",
@@ -98,8 +123,8 @@ JUSTIFIED_X1 = [
     ("_PropertyDict.__init__", lambda t: t.startswith("raise SchemaDefinitionError"), "SchemaDefinitionError",
      "within validation Element.__init__ is only called with `properties` defaulted, so the setter returns at its "
      "not-passed test", _cond_no_properties_args),
-    ("MultipleOf._validate", lambda t: True, "ZeroDivisionError",
-     "the divisor is the schema's multipleOf, strictly positive by the metaschema", None),
+    ("*", lambda t: True, "ZeroDivisionError",
+     "the divisor is the schema's multipleOf, strictly positive by the metaschema", "_cond_multipleof_only"),
     ("Number.construct", lambda t: t.startswith("float("), "ValueError",
      "float() raises ValueError only for strings; construct runs after the type validator InstanceOf(float, int)",
      _cond_number_type_validator),
@@ -127,7 +152,13 @@ def x1_core(ctx, res, roots, allowed, justified, x3_ok=True):
         detail = {"exception": exc, "root": root.short, "path": [f"root {root.short}"] + path}
         just = None
         for fshort, pred, jexc, reason, cond in justified:
-            if o.func.short == fshort and jexc == exc and pred(o.text):
+            if (o.func.short == fshort or fshort == "*") and jexc == exc and pred(o.text):
+                if cond == "_cond_multipleof_only":
+                    okc, msg = _cond_multipleof_only(ctx, o)
+                    if not okc:
+                        continue
+                    reason = f"{reason} [checked: {msg}]"
+                    cond = None
                 if cond is not None:
                     okc, msg = cond(ctx)
                     if not okc:
@@ -209,28 +240,32 @@ def _cond_dispatch(kw):
 
 
 def _cond_composition_keys(ctx):
+    from .norm import strings_reaching
     f = ctx.func("_parse_composition")
     for n in walk_own(f.body):
-        if isinstance(n, ast.For) and n.body and isinstance(n.body[0], ast.Assign):
-            t = n.body[0].targets[0]
-            if isinstance(t, ast.Subscript) and norm(t.value) == "composition" and norm(t.slice) == norm(n.target):
-                keys = ctx.inf.iter_strings(n.iter, f)
-                if keys is None and isinstance(n.iter, ast.GeneratorExp):
-                    g = n.iter.generators[0]
-                    src = ctx.inf.iter_strings(g.iter, f)
-                    if src is not None:
-                        excl = set()
-                        for c in g.ifs:
-                            if isinstance(c, ast.Compare) and isinstance(c.ops[0], ast.NotEq) and isinstance(c.comparators[0], ast.Constant):
-                                excl.add(c.comparators[0].value)
-                        keys = src - excl
-                if keys is None and isinstance(n.iter, ast.BinOp) and isinstance(n.iter.op, ast.Sub):
-                    left = n.iter.left
-                    if isinstance(left, ast.Call) and left.args:
-                        src = ctx.inf.iter_strings(left.args[0], f)
-                        right = n.iter.right
-                        if src is not None and isinstance(right, ast.Set):
-                            keys = src - {e.value for e in right.elts if isinstance(e, ast.Constant)}
+        if not isinstance(n, ast.For):
+            continue
+        for st in walk_own(n.body):
+            if isinstance(st, ast.Assign) and isinstance(st.targets[0], ast.Subscript) and norm(st.targets[0].value) == "composition" \
+                    and norm(st.targets[0].slice) == norm(n.target):
+                it = n.iter
+                excl = set()
+                cands = ctx.inf.iter_strings(it, f)
+                if cands is None and isinstance(it, ast.GeneratorExp) and len(it.generators) == 1 and norm(it.elt) == norm(it.generators[0].target):
+                    g = it.generators[0]
+                    cands = ctx.inf.iter_strings(g.iter, f)
+                    for c in g.ifs:
+                        if isinstance(c, ast.Compare) and isinstance(c.ops[0], ast.NotEq) and isinstance(c.comparators[0], ast.Constant):
+                            excl.add(c.comparators[0].value)
+                        else:
+                            cands = None
+                if cands is None and isinstance(it, ast.BinOp) and isinstance(it.op, ast.Sub) and isinstance(it.left, ast.Call) \
+                        and it.left.args and isinstance(it.right, ast.Set):
+                    cands = ctx.inf.iter_strings(it.left.args[0], f)
+                    excl = {e.value for e in it.right.elts if isinstance(e, ast.Constant)}
+                if cands is None:
+                    continue
+                keys = strings_reaching(n, st, set(cands) - excl)
                 if keys is not None:
                     return keys >= {"allOf", "oneOf", "anyOf"}, f"the preceding loop stores keys {sorted(keys)}"
     return False, "loop storing composition[key] not found"
